@@ -59,6 +59,7 @@ type LCase struct {
 	Seed         uint64  `json:"seed"`
 	Max          int     `json:"max"`
 	Mode         string  `json:"mode"`
+	Rule         string  `json:"rule,omitempty"` // "" = default; short_deck: ante + dealer blind, no small / big blind
 	Min          int     `json:"min"`
 	Init         TBlind  `json:"init_blind"`
 	JoinAtCreate bool    `json:"join_at_create,omitempty"` // the players are handed to CreateTable (an MTT table created by the balancer)
@@ -161,9 +162,27 @@ func genBlind(r *RNG) TBlind {
 	return b
 }
 
+// a level of a short-deck table: everybody antes, the dealer posts the one blind
+func shortDeckBlind(b TBlind) TBlind {
+	if b.Level == -1 || b.BB < 0 {
+		return b
+	}
+	return TBlind{Level: b.Level, Ante: b.Ante + 5, Dealer: b.BB, SB: 0, BB: 0}
+}
+
 func runLifeCase(c *LCase) {
 	r := NewRNG(c.Seed)
-	set := mkSetting(fmt.Sprintf("life-%d", c.Index), "default", c.Mode, c.Max, c.Min, c.Init.Ante, c.Init.Dealer, c.Init.SB, c.Init.BB, c.Init.Level, 10)
+	rule := "default"
+	if c.Rule != "" {
+		rule = c.Rule
+	}
+	genBlind := func(r *RNG) TBlind {
+		if rule == "short_deck" {
+			return shortDeckBlind(genBlind(r))
+		}
+		return genBlind(r)
+	}
+	set := mkSetting(fmt.Sprintf("life-%d", c.Index), rule, c.Mode, c.Max, c.Min, c.Init.Ante, c.Init.Dealer, c.Init.SB, c.Init.BB, c.Init.Level, 10)
 	n := 2 + r.Intn(c.Max-1)
 	bustArrival := c.Directed == "bust_arrival"
 	if bustArrival {
@@ -576,6 +595,10 @@ func genLife(root *RNG, i int, seed uint64, mode string) LCase {
 				c.Init.BB = -1
 			}
 		}
+	}
+	if c.Directed == "" && mode == "" && NewRNG(seed*7919+uint64(i)).Chance(1, 5) { // (a stream of its own)
+		c.Rule = "short_deck"
+		c.Init = shortDeckBlind(c.Init)
 	}
 	return c
 }
